@@ -1,4 +1,3 @@
 SPECIFICATION Spec
-INVARIANT Emit
-INVARIANT DesignOK
+INVARIANT Judged
 CHECK_DEADLOCK FALSE
